@@ -128,6 +128,13 @@ def search(job):
     before = {k: v for k, v in validators.meta_schemas.items()}
     vbefore = dict(validators.validators)
     try:
+        # the registry is consulted at every call: an id looked up before its class is registered is found afterwards
+        tried += 1
+        with warnings.catch_warnings():
+            warnings.simplefilter("ignore")
+            early = validators.validator_for({"$schema": "urn:acme:draft4-plus"})
+        if early is not latest:
+            fail(what="registration", problem="an unregistered id selected %s" % getattr(early, "__name__", early))
         meta = dict(classes[4].META_SCHEMA)
         meta["id"] = "urn:acme:draft4-plus"
         New = validators.create(meta_schema=meta, validators=classes[4].VALIDATORS, version="draft4", id_of=classes[4].ID_OF)
